@@ -5,6 +5,7 @@
                                                   # passes, demo fails with / passes without
   tools/try_mutant.py check  <ID> <A|B> [CHECK..] # apply to /repo, run `run.py check` for the listed checks (default: ID),
                                                   # always restore /repo afterwards
+  tools/try_mutant.py seeded <ID>-<A|B> [CHECK..] # the same for a change kept under /verif/seeded
   tools/try_mutant.py keep   <ID> <A|B> <catching checks,comma> <needs...>   # copy into /verif/seeded/<ID>-<A|B>/
 """
 import json
@@ -65,9 +66,9 @@ def verify(pid, which):
     return out
 
 
-def check(pid, which, checks):
+def check(pid, which, checks, diff=None):
     wt = os.path.join(MUT, pid)
-    diff = os.path.join(wt, f"mutant{which}.diff")
+    diff = diff or os.path.join(wt, f"mutant{which}.diff")
     rc, o = sh(["git", "status", "--porcelain", "--untracked-files=no"], cwd="/repo")
     if o.strip():
         return {"error": "/repo is dirty: " + o}
@@ -78,11 +79,21 @@ def check(pid, which, checks):
     try:
         for c in checks:
             t0 = time.time()
+            # keep the clean-tree evidence and replay directory: results against a seeded change are not evidence
+            ev = os.path.join(VERIF, "evidence", f"{c}.json")
+            saved = open(ev).read() if os.path.exists(ev) else None
+            rp = os.path.join(VERIF, "replays", c)
+            before = set(os.listdir(rp)) if os.path.isdir(rp) else set()
             env = dict(os.environ)
             rc, o = sh([sys.executable, os.path.join(VERIF, "run.py"), "check", c, "--tier", "quick"], cwd=VERIF, timeout=7200, env=env)
             viol = [l for l in o.splitlines() if l.startswith("VIOLATION")]
             msgs = [l.strip()[:300] for l in o.splitlines() if "violation [" in l][:3]
             res[c] = {"exit": rc, "violations": len(viol), "wall_s": round(time.time() - t0), "first": msgs}
+            if saved is not None:
+                open(ev, "w").write(saved)
+            if os.path.isdir(rp):
+                for n in set(os.listdir(rp)) - before:
+                    os.remove(os.path.join(rp, n))
     finally:
         sh(["git", "checkout", "--", "."], cwd="/repo")
     return res
@@ -119,5 +130,9 @@ if __name__ == "__main__":
         print(json.dumps(verify(sys.argv[2], sys.argv[3]), indent=1))
     elif cmd == "check":
         print(json.dumps(check(sys.argv[2], sys.argv[3], sys.argv[4:] or [sys.argv[2]]), indent=1))
+    elif cmd == "seeded":
+        # tools/try_mutant.py seeded C15-B [CHECK..]: run checks against a kept change in /verif/seeded
+        key = sys.argv[2]
+        print(json.dumps(check(key.split("-")[0], key.split("-")[1], sys.argv[3:] or [key.split("-")[0]], diff=os.path.join(VERIF, "seeded", key, "patch.diff")), indent=1))
     elif cmd == "keep":
         print(json.dumps(keep(sys.argv[2], sys.argv[3], sys.argv[4], " ".join(sys.argv[5:])), indent=1))
